@@ -245,11 +245,11 @@ def dump_full(res, G, idx, case):
     return out
 
 
-def run_impl(case, tape=None, rng=None, full=None, keep_obj=False):
+def run_impl(case, tape=None, rng=None, full=None, keep_obj=False, free_choice=False):
     """returns (out dict, G, idx).  out: ok, err?, times, cols, [full dump], tape, trace"""
     G, lab = build_graph(case)
     idx = gen.index_of(G)
-    tr = rngmod.TapeRandom(rng=rng, tape=tape, idx=idx)
+    tr = rngmod.TapeRandom(rng=rng, tape=tape, idx=idx, free_choice=free_choice)
     rules = Rules(case, lab, idx)
     isfull = case["full"] if full is None else full
     out = {"full": isfull}
